@@ -648,6 +648,24 @@ impl Engine for OffsetSim {
             let at = rng.below(texts.len() + 1);
             texts.insert(at, ("C".to_string(), t));
         }
+        // dictionary lookups into the same recycled list: `MorphemeList::lookup(query)` builds morphemes whose byte and
+        // code-point ranges must agree too; queries are keys, width variants of keys (full-width ASCII, half-width
+        // kana) and keys with a tail. Mode "L". Own PRNG stream so that the analysed texts stay what they were.
+        let mut lr = Rng::derive(seed, "offsetsim/lookup", run);
+        if lr.chance(1, 3) && !world.keys.is_empty() {
+            for _ in 0..1 + lr.below(3) {
+                let k = lr.pick(&world.keys).clone();
+                let q = match lr.below(5) {
+                    0 => k,
+                    1 => k.chars().map(|c| if ('!'..='~').contains(&c) { char::from_u32(c as u32 + 0xFEE0).unwrap_or(c) } else { c }).collect(),
+                    2 => k.chars().map(|c| match c { 'ア' => 'ｱ', 'イ' => 'ｲ', 'ウ' => 'ｳ', 'カ' => 'ｶ', 'ト' => 'ﾄ', 'ー' => 'ｰ', x => x }).collect(),
+                    3 => format!("{}{}", k, gen_text(&mut lr, &world.keys)),
+                    _ => gen_text(&mut lr, &world.keys),
+                };
+                let at = lr.below(texts.len() + 1);
+                texts.insert(at, ("L".to_string(), q));
+            }
+        }
         OffsetCase { world, texts }
     }
     fn execute(&self, case: &OffsetCase, stats: &mut Stats, work: &Path) -> Option<Violation> {
@@ -665,6 +683,34 @@ impl Engine for OffsetSim {
         let mut checked = 0;
         for (i, (mode, text)) in case.texts.iter().enumerate() {
             if text.contains('\u{0}') {
+                continue;
+            }
+            if mode == "L" {
+                let r = catch(|| {
+                    list.clear();
+                    list.lookup(text, InfoSubset::all())
+                });
+                match r {
+                    Err(p) => return viol("panic", &p.site, i, json!({"stage":"lookup","message":p.msg,"query":crate::proj::trunc(text)})),
+                    Ok(Err(_)) => continue,
+                    Ok(Ok(_)) => {}
+                }
+                stats.inc("lookups");
+                let p = match catch(|| project(&list, InfoSubset::empty())) {
+                    Ok(p) => p,
+                    Err(p) => return viol("panic", &p.site, i, json!({"stage":"read offsets of looked-up morphemes","message":p.msg,"query":crate::proj::trunc(text)})),
+                };
+                if !p.morphemes.is_empty() {
+                    stats.inc("reach.lookup_found");
+                }
+                digest = fnv_mix(digest, fnv1a(serde_json::to_string(&p.morphemes.iter().map(|m| (m.begin_c, m.end_c)).collect::<Vec<_>>()).unwrap().as_bytes()));
+                if let Some((mi, why)) = char_offsets_ok(&p) {
+                    return viol("char-offset-mismatch", "looked-up-morpheme", i, json!({"morpheme": mi, "why": why, "query": crate::proj::trunc(text)}));
+                }
+                if p.text != *text {
+                    return viol("text-differs-from-model", "lookup-list-text", i, json!({"query": crate::proj::trunc(text), "list_text": crate::proj::trunc(&p.text)}));
+                }
+                checked += p.morphemes.len();
                 continue;
             }
             tok.set_mode(crate::toksim::mode_of(mode));
